@@ -31,6 +31,9 @@ type c15Scn struct {
 	Deadline   bool   `json:"deadline,omitempty"` // DeadlineExceeded instead of Canceled
 	Stride     int    `json:"stride,omitempty"`   // enum: step stride (1 = every step)
 	Buffered   bool   `json:"buffered,omitempty"` // Config.Output wrapped in a bufio.Writer like the CLI
+	// Warm: the Interpreter is reused: a first ExecuteContext with a context that is never
+	// closed runs to completion before the measured call
+	Warm bool `json:"warm,omitempty"`
 }
 
 var c15Progs = map[string]string{
@@ -44,20 +47,22 @@ var c15Progs = map[string]string{
 	"patterns": `function f(x) { tick(x); return x % 2 } f(NR) { m++ }
 $1 > 3
 END { print m }`,
-	"pattern-only":    `$1 % 3 == 0`,
-	"range":           `$1 == 2, $1 == 5 { tick(NR) } END { print NR }`,
-	"end":             `END { for (i = 1; i <= N; i++) { tick(i); print "s" i } }`,
-	"outputs":         `BEGIN { for (i = 1; i <= N; i++) { print "s" i; print "f" i > "out1"; print "c" i | cmd; tick(i) } }`,
-	"getline-file":    `BEGIN { while ((getline line < "in1") > 0) { n++; tick(n) } for (i = 0; i < N; i++) { tick(n + i) } print n }`,
-	"system-loop":     `BEGIN { for (i = 1; i <= N; i++) { r = system(cmdexit); print "s" i; tick(i) } }`,
-	"getline-cmd":     `BEGIN { while ((cmdlines | getline line) > 0) { n++; print "s" n; tick(n) } close(cmdlines); for (i = 0; i < 100000; i++) x++ }`,
-	"blocked-system":  `BEGIN { print "s1"; tick(1); r = system(cmdhang); tick(2); for (i = 0; i < 100000; i++) x++ }`,
-	"blocked-close":   `BEGIN { print "s1"; print "c1" | cmdhang; tick(1); close(cmdhang); tick(2); for (i = 0; i < 100000; i++) x++ }`,
-	"blocked-getline": `BEGIN { print "s1"; tick(1); cmdhang | getline x; tick(2); for (i = 0; i < 100000; i++) x++ }`,
+	"pattern-only":       `$1 % 3 == 0`,
+	"range":              `$1 == 2, $1 == 5 { tick(NR) } END { print NR }`,
+	"end":                `END { for (i = 1; i <= N; i++) { tick(i); print "s" i } }`,
+	"outputs":            `BEGIN { for (i = 1; i <= N; i++) { print "s" i; print "f" i > "out1"; print "c" i | cmd; tick(i) } }`,
+	"getline-file":       `BEGIN { while ((getline line < "in1") > 0) { n++; tick(n) } for (i = 0; i < N; i++) { tick(n + i) } print n }`,
+	"system-loop":        `BEGIN { for (i = 1; i <= N; i++) { r = system(cmdexit); print "s" i; tick(i) } }`,
+	"getline-cmd":        `BEGIN { while ((cmdlines | getline line) > 0) { n++; print "s" n; tick(n) } close(cmdlines); for (i = 0; i < 100000; i++) x++ }`,
+	"big-to-cmd":         `BEGIN { big = sprintf("%70000s", "x"); for (i = 1; i <= N; i++) { printf "%s", big | cmd; tick(i); for (j = 0; j < 30; j++) x++ } }`,
+	"blocked-grandchild": `BEGIN { print "s1"; tick(1); r = system(cmdspawn); tick(2); for (i = 0; i < 100000; i++) x++ }`,
+	"blocked-system":     `BEGIN { print "s1"; tick(1); r = system(cmdhang); tick(2); for (i = 0; i < 100000; i++) x++ }`,
+	"blocked-close":      `BEGIN { print "s1"; print "c1" | cmdhang; tick(1); close(cmdhang); tick(2); for (i = 0; i < 100000; i++) x++ }`,
+	"blocked-getline":    `BEGIN { print "s1"; tick(1); cmdhang | getline x; tick(2); for (i = 0; i < 100000; i++) x++ }`,
 }
 
 var c15Archs = []string{"while", "for", "recursion", "forin", "forin-nobody", "forin-nested", "records", "patterns", "pattern-only", "range", "end", "outputs", "getline-file"}
-var c15ChildArchs = []string{"system-loop", "getline-cmd", "blocked-system", "blocked-close", "blocked-getline"}
+var c15ChildArchs = []string{"system-loop", "getline-cmd", "big-to-cmd", "blocked-system", "blocked-close", "blocked-getline", "blocked-grandchild"}
 
 type c15State struct {
 	ticks      int
@@ -134,6 +139,7 @@ func (c15Engine) NewScenario() any        { return &c15Scn{} }
 func (c15Engine) Gen(r *core.Rand, tier string, i int) any {
 	sc := &c15Scn{}
 	sc.Buffered = r.Chance(1, 3)
+	sc.Warm = r.Chance(1, 5)
 	if r.Chance(1, 14) {
 		sc.Arch = core.Pick(r, c15ChildArchs)
 		sc.N = r.Range(2, 8)
@@ -261,7 +267,7 @@ func c15Exec(sc *c15Scn, cancel string, cancelStep, cancelTick int, log *core.Lo
 			fmt.Fprintf(&lines, "l%d\n", i)
 		}
 		cfg.Vars = append(cfg.Vars, "cmd", "co;save:"+fs.Path("cmdsaved"), "cmdexit", "ce;exit:0",
-			"cmdlines", "cl;emit:"+lines.String()+";exit:0", "cmdhang", "h;hang")
+			"cmdlines", "cl;emit:"+lines.String()+";exit:0", "cmdhang", "h;hang", "cmdspawn", "h;spawn:g;hang")
 	}
 	var ctx *core.SimContext
 	cerr := context.Canceled
@@ -304,6 +310,30 @@ func c15Exec(sc *c15Scn, cancel string, cancelStep, cancelTick int, log *core.Lo
 	if err != nil {
 		core.Fatal("C15: New: %v", err)
 	}
+	if sc.Warm && cancel != "plain" && !childArch {
+		// reuse: a complete earlier run under another context that is never closed
+		warmCfg := *cfg
+		warmCfg.Stdin = bytes.NewReader(c15Input(sc.Lines))
+		warmCfg.Output = core.NewSimSink("warm", nil)
+		wfs, werr := core.NewSimFS(scratchBase(), nil)
+		if werr != nil {
+			core.Fatal("C15: simfs: %v", werr)
+		}
+		_ = wfs.Put("in1", c15Input(40))
+		warmCfg.OpenFile = wfs.Open
+		hook := interp.VerifStep
+		interp.VerifStep = nil
+		st.ctx = nil
+		wr := guarded(func() (int, error) { return it.ExecuteContext(core.NewSimContext(), &warmCfg) })
+		wfs.Remove()
+		if wr.Panic != "" {
+			res.Panic = "warm-up run: " + wr.Panic
+		}
+		interp.VerifStep = hook
+		st.ticks = 0
+		st.ctx = ctx
+		it.ResetVars()
+	}
 	run := func() execResult {
 		return guarded(func() (int, error) {
 			if ctx != nil {
@@ -325,13 +355,29 @@ func c15Exec(sc *c15Scn, cancel string, cancelStep, cancelTick int, log *core.Lo
 				core.Fatal("C15: hanging child never started (%s)", sc.Arch)
 			}
 		} else {
-			child.Go() // past hello
-			if _, ok := child.WaitMsg("at 0", 20*time.Second); !ok {
-				core.Fatal("C15: child did not reach its hang step")
+			// release every step of the child (and of a grandchild it spawns) until all hang
+			need := 1
+			if strings.Contains(src, "cmdspawn") {
+				need = 2
 			}
-			child.Go()
-			if _, ok := child.WaitMsg("hanging", 20*time.Second); !ok {
-				core.Fatal("C15: child did not hang")
+			child.Go() // past hello
+			hanging := 0
+			deadline := time.After(20 * time.Second)
+			for hanging < need {
+				select {
+				case ev := <-srv.Events:
+					switch {
+					case ev.Child == child && strings.HasPrefix(ev.Msg, "hello "):
+					case strings.HasPrefix(ev.Msg, "hello "), strings.HasPrefix(ev.Msg, "at "):
+						ev.Child.Go()
+					case ev.Msg == "hanging":
+						hanging++
+					case ev.Msg == "EOF":
+						core.Fatal("C15: child %s died before hanging", ev.Child.Name)
+					}
+				case <-deadline:
+					core.Fatal("C15: children did not reach their hang step (%d of %d)", hanging, need)
+				}
 			}
 			// The interpreter is now waiting for the child (or about to). Close the context.
 			time.Sleep(2 * time.Millisecond)
@@ -513,6 +559,13 @@ func (e c15Engine) Run(scAny any, keep bool) core.Outcome {
 		if f := check("never", 0, 0, plain); f != nil {
 			out.Fail = f
 			return out
+		}
+		perRun := 1
+		if childArch || sc.Arch == "outputs" {
+			perRun = 12 // runs with child processes cost milliseconds each
+		}
+		if max := 1500 / perRun; (total+1)/stride > max {
+			stride = (total + max) / max // keep an enumerated scenario within a few seconds
 		}
 		for c := 1; c <= total+1; c += stride {
 			if f := check("step", c, 0, nil); f != nil {
